@@ -4,6 +4,8 @@ use crate::report::{KnownFindings, Tier};
 use serde_json::Value;
 use std::path::PathBuf;
 
+pub mod c08;
+pub mod c13;
 pub mod c16;
 
 pub struct Args {
@@ -58,6 +60,8 @@ pub fn dispatch(
         };
     }
 
+    route!("C08", c08);
+    route!("C13", c13);
     route!("C16", c16);
 
     eprintln!("unknown or not yet implemented property {property}");
